@@ -410,6 +410,7 @@ type qspec struct {
 	opt     bool
 	optsize uint16
 	optopts bool // option-laden OPT (cookie, ECS, padding, DO)
+	nqdistinct bool // further questions (nq > 1) get unrelated names
 	optzero bool // advertise a UDP size of 0
 	optmid  bool // another record follows the OPT in the additional section
 	raw     []byte
@@ -428,6 +429,9 @@ func (q qspec) wire() []byte {
 		n := q.name
 		if i > 0 {
 			n = fmt.Sprintf("x%d.%s", i, q.name)
+			if q.nqdistinct { // names that share no suffix: name compression cannot shrink the question section
+				n = fmt.Sprintf("a-rather-long-label-to-make-the-question-section-large-%d.and-another-long-label-for-the-same-purpose-%d.mq%d.", i, i, i)
+			}
 		}
 		m.Question = append(m.Question, dns.Question{Name: n, Qtype: q.typ, Qclass: q.cls})
 	}
